@@ -232,6 +232,14 @@ class Enc:
 
     # ---- powers and roots -------------------------------------------
     def pow(self, base, exp):
+        if not exp.is_Rational and not exp.is_Float and exp.is_number and not exp.free_symbols and not exp.has(sp.pi, sp.E, sp.I):
+            # a constant written unevaluated (root(x, 4) under evaluate(False) is x**(4**-1)): the rational it denotes
+            try:
+                ev = exp.doit()
+                if ev.is_Rational:
+                    exp = ev
+            except Exception:
+                pass
         if exp.is_Float:
             r = sp.nsimplify(exp, rational=True)
             if r.is_Rational and int(r.q) <= 16 and abs(int(r.p)) <= 64 and sp.Float(r, 30) == sp.Float(exp, 30):
